@@ -717,7 +717,7 @@ def gen_main(tr, mod):
                     init.append('VM_INIT_CELL(%d, %d, %s);' % (o.oid, c, e))
     if tr.mode == 'cbmc':
         for t in range(1, tr.nthreads + 1):
-            out.append('void thr_%d(void){ vm_thread_begin(%d); vm_shadow_in_%d(); f_vm_thread_%d(); if (!vm_dead) vm_shadow_out_%d(); vm_thread_end(%d); }' % (t, t, t, t, t, t))
+            out.append('void thr_%d(void){ vm_thread_begin(%d); vm_shadow_in_%d(); f_vm_thread_%d(); vm_shadow_out_%d(); vm_thread_end(%d); }' % (t, t, t, t, t, t))
         m = ['int main(void){', '  vm_tid = 0; vm_kt = 0;', '  ' + ' '.join(tr.nondet_init)]
         if 'vm_setup' in mod.funcs:
             m.append('  f_vm_setup();')
